@@ -39,6 +39,18 @@ int main(int argc, char** argv) {
             emit(type + (type == "p2tr-script" ? " path=" + std::to_string(pathlen) : "") + (annex ? " annex" : ""), S.fund, S.tx, F_STANDARD);
         }
     }
+    // bare legacy outputs with hand-made scriptSig / scriptPubKey pairs: sections of zero, one and several operations
+    {
+        struct B { const char* name; const char* sig; const char* spk; };
+        for (B b : {B{"empty scriptSig, scriptPubKey OP_1", "", "51"}, B{"empty scriptSig, scriptPubKey OP_1 OP_DUP OP_DROP", "", "517675"},
+                    B{"scriptSig OP_1, scriptPubKey OP_NOP", "51", "61"}, B{"scriptSig 2 3, scriptPubKey OP_ADD 5 OP_EQUAL", "5253", "935587"},
+                    B{"scriptSig OP_0, scriptPubKey OP_NOT", "00", "91"}, B{"empty scriptSig, scriptPubKey OP_0 (fails)", "", "00"}}) {
+            gen::Shape sh; sh.nin = 2; sh.pos = 1; sh.fund_vout = 1; sh.nout = 2;
+            gen::Spend S = gen::make_spend("p2pk", sh);
+            S.fund.vout[1].spk = unhex(b.spk); S.tx.vin[1].prev_hash = txid(S.fund); S.tx.vin[1].script_sig = unhex(b.sig);
+            emit(std::string("bare: ") + b.name, S.fund, S.tx, F_STANDARD);
+        }
+    }
     for (auto& v : CHAIN_VECTORS) { Tx f, t; parse_tx(unhex(v.txin), f); parse_tx(unhex(v.tx), t); emit(std::string("chain:") + v.name, f, t, F_STANDARD); }
     return 0;
 }
